@@ -44,3 +44,22 @@ Theorem C17_bins_total : forall (F : FieldT) (N : Z) (qs : list (list Z * F)), (
   fsum (map (fun b => bin_sum F b qs) (zrange 0 (N / 2))) = fsum (map (fun p => if inside N (fst p) then snd p else o0) qs).
 Proof. intros. apply bins_total. assumption. Qed.
 Print Assumptions C17_bins_total.
+
+(* get_spectrum of the source: its structure (transform, the two scaling arrays, the scan over build_wavenumbers(1, N)[0, :] with a vmap
+   over channels, nansum / nanmean over the mask lower <= |k| < upper) is compared with the expected text, and what decides the values is
+   re-translated on every run (harness/translate/spectrum.py -> Gen/SpectrumGen.v): the per-mode quantity is the model's (power and
+   amplitude), the scaling arrays are the reconstruction and norm-compensation ones, and with bin spacing dk = 1 the limits of bin b are
+   b -+ 1/2, i.e. twice the limits are the integers 2b -+ 1 whose squares in_bin compares with 4|k|^2 *)
+From EXV Require Import Gen.SpectrumGen.
+Theorem C17_code_quantity_and_bins_are_model : forall (F : FieldT) (N : Z) (ND : F) (k : list Z) (a : F) (b : Z),
+  gen_spec_quantity F true a (recon_scale F N ND k) ND = power_q F N ND k a
+  /\ gen_spec_quantity F false a (recon_scale F N ND k) ND = amplitude_q F N ND k a
+  /\ gen_spec_mode_r = 11%Z /\ gen_spec_mode_c = 10%Z
+  /\ omul (fz 2) (gen_spec_lower F (fz b) (fz 1)) = fz (2 * b - 1)
+  /\ omul (fz 2) (gen_spec_upper F (fz b) (fz 1)) = fz (2 * b + 1).
+Proof.
+  intros F N ND k a b. splits; try reflexivity.
+  - apply doubled_lower.
+  - apply doubled_upper.
+Qed.
+Print Assumptions C17_code_quantity_and_bins_are_model.
